@@ -151,7 +151,12 @@ func (v Violation) Key() string { return v.Class + " " + v.Sig }
 
 // Exec runs the instrumented CLI once under cfg, in this process.
 func Exec(cfg sim.Config) sim.Result {
-	return sim.Run(cfg, bornocli.Main)
+	r := sim.Run(cfg, bornocli.Main)
+	if sim.Tainted != "" {
+		dumpCfg(cfg)
+		fatal2("simulator: %s", sim.Tainted)
+	}
+	return r
 }
 
 type Obs struct {
